@@ -175,8 +175,12 @@ class CellObject(Points, ABC):
             new_id = np.ones_like(mask, dtype=int)
             new_id[mask] = np.arange(np.sum(mask))
 
+            # a cell survives only if none of its vertices is dropped
+            kept = np.all(mask[self.cells], axis=1)
             if cell_mask is None:
-                cell_mask = np.all(mask[self.cells], axis=1)
+                cell_mask = kept
+            elif isinstance(cell_mask, np.ndarray) and cell_mask.dtype == bool:
+                cell_mask = cell_mask & kept
 
             new_cells = new_id[self.cells]
 
